@@ -537,7 +537,7 @@ def jobs_for(pid, tier):
                      consts={"CapA": ca, "CapB": cb, "Classes": ([0, 1, 2] if max(ca, cb) <= 3 and q else [0, 1, 2, 3])}) for ca, cb in caps]
 
     MFAM = ["core", "entry", "unchecked", "disjoint", "cursor", "bulk", "clone"]
-    SFAM = ["core", "cursor", "bulk", "clone"]
+    SFAM = ["core", "cursor", "bulk", "clone", "binary"]
 
     def micro(tag, mode, adv, cap, classes, fams, **c):
         consts = {"Cap": cap, "Classes": classes, "Adv": adv, "Budget": 0 if adv else 1}
